@@ -31,10 +31,65 @@ READ_MODULE, READ_NS = 'SarpyModel.Props.C01Dispatch', 'Sarpy.Props.C01'
 WRITE_MODULE, WRITE_NS = 'SarpyModel.Props.C07Dispatch', 'Sarpy.Props.C07'
 BRIDGE_MODULE, BRIDGE_NS = 'SarpyModel.Bridge.Dispatch', 'Sarpy.Bridge.Dispatch'
 
-REQUIRED_READ = []      # filled below (kept next to the theorem files)
-REQUIRED_WRITE = []
+REQUIRED_READ = [
+    # string modifiers commute with everything else
+    'extract_tuple', 'getitem_tuple', 'getitem_mods_anywhere', 'getitem_mod_moves', 'getitem_single_str', 'getitem_single',
+    # the image-index rule of __getitem__
+    'trailingIndex_some_iff', 'getitemCore_rule', 'trailingIndex_image', 'getitem_reads_index',
+    # __call__: ranges, image, refusal of an index naming no image
+    'pyIndex_ok_iff', 'pyIndex_lt', 'pyIndex_refused_iff', 'pickImage_lt', 'call_ok_iff', 'call_image_lt', 'call_flags', 'call_sub',
+    'call_index_out_of_range', 'call_index_nonneg', 'call_index_neg', 'call_single_ignores_index', 'convRanges_length',
+    'convRanges_entries', 'callSub_none_iff', 'convRanges_slices', 'convRange_int', 'convRange_none', 'convRange_tuple3',
+    # every entry point denotes the same selection
+    'read_eq_call', 'read_raw_eq_call', 'read_chip_eq_read', 'getitem_eq_call', 'getitem_eq_call_zero', 'getitem_eq_read',
+    'getitem_raw_eq_read_raw', 'getitem_nosqueeze_eq_read', 'entry_points_agree', 'dispatch_image_lt',
+    # aggregate readers, size accessors, consumers
+    'aggMap_length', 'aggMap_get', 'flatten_get', 'agg_segment_is_childs', 'agg_dispatch', 'agg_dispatch_total',
+    'sizes_agree', 'dataSize_one_iff', 'subset_parent', 'subset_parent_refused', 'verifySlice_normal', 'verifyAxes_normal',
+    'verifySub_normEntries', 'verifySub_normalSub', 'fullSlices_normalSub', 'resolveSub_normalSub', 'fetcher_reads_its_image',
+    'fetcher_fullres',
+    # end to end with read_eq_numpy (C01Nd) and read_refines (C01Seg)
+    'serve_eq_numpy', 'reader_read_refines', 'getitem_reads_that_image',
+]
+REQUIRED_WRITE = [
+    'dispatchPut_eq_call', 'write_eq_call', 'write_chip_eq_write', 'write_raw_eq_call', 'put_ok_iff', 'put_forwards_every_argument',
+    'put_goes_to_index', 'put_raw_served', 'put_formatted_served_iff', 'put_index_out_of_range', 'entry_points_agree',
+    'put_segment_independent_of_raw', 'put_routes',
+]
 REQUIRED_BRIDGE_READ = []
 REQUIRED_BRIDGE_WRITE = []
+
+
+def regen():
+    """regenerate lean/SarpyModel/Gen/Dispatch.lean from the current Python text of the dispatch functions"""
+    try:
+        import gen_dispatch
+    except ImportError:
+        return {'unsupported': [], 'note': 'no translator module'}
+    return gen_dispatch.generate(os.path.join(VERIF, 'lean', 'SarpyModel', 'Gen', 'Dispatch.lean'))
+
+
+def extra_reads():
+    """for Check.prove(..., extra=...): the dispatch theorems of C01 (+ the bridge to the regenerated Python)"""
+    out = [(READ_MODULE, READ_NS, REQUIRED_READ)]
+    if REQUIRED_BRIDGE_READ:
+        out.append((BRIDGE_MODULE, BRIDGE_NS, REQUIRED_BRIDGE_READ))
+    return out
+
+
+def extra_writes():
+    out = [(WRITE_MODULE, WRITE_NS, REQUIRED_WRITE)]
+    if REQUIRED_BRIDGE_WRITE:
+        out.append((BRIDGE_MODULE, BRIDGE_NS, REQUIRED_BRIDGE_WRITE))
+    return out
+
+
+def targets_reads():
+    return [READ_MODULE] + ([BRIDGE_MODULE] if REQUIRED_BRIDGE_READ else [])
+
+
+def targets_writes():
+    return [WRITE_MODULE] + ([BRIDGE_MODULE] if REQUIRED_BRIDGE_WRITE else [])
 
 BASE = 100000           # pixel value = image id * BASE + flat offset in the stored (raw) array
 
